@@ -2,6 +2,7 @@ import PokerVerif.Lemmas.TBBasic
 import PokerVerif.Lemmas.SMBasic
 import PokerVerif.Lemmas.TBSeatsRun
 import PokerVerif.Lemmas.TBAgree
+import PokerVerif.Lemmas.TBAgreeRun
 import PokerVerif.Props.C07
 import PokerVerif.Props.C01
 /-!
@@ -16,11 +17,18 @@ Proved here: all-or-nothing for every seat-manager mutator and for `PlayerReserv
 `PlayerRedeemChips`; capacity; a vacated seat is empty again and an empty in-range seat accepts a new player.
 `UpdateTablePlayers` is leave-then-join: if the join half fails the departure is already applied (known finding D20,
 `C03_update_not_atomic_on_witness`); for batches mixing fixed and random seats the release of the fixed seats is
-modelled (`batchAdd`) and compared with the implementation on every run.  The table's half of the consistency
-invariant (seat map ↔ player list, `Booked`) is proved for every reachable state of every history whose arrivals were
-given seats the table showed free (`C03_bookkeeping_partial`); departures keep it unconditionally
-(`C03_leave_keeps_bookkeeping`).  The agreement with the seat manager (`TBSpec.c03Inv`) is evaluated on every snapshot of
-every run and is not yet derived for all histories (DESIGN.md, C03).
+modelled (`batchAdd`) and compared with the implementation on every run.
+
+**For every history** (`C03_for_every_history`, `C03_occupants`): starting from `CreateTable`, after any sequence of
+the 16 kinds of event of `TB.Event` — arrivals single and in batches with fixed and drawn seats, sit-ins, top-ups,
+departures, blind changes, pause/close/release/start, gate set-ups and firings (positions drawn or rotated), settlement
+signals, settlements, the continue step, the stale auto-join completion — the table's seat map and player list are tight
+and of the configured length (`Booked`) **and** the seat manager holds, on every seat of the table, exactly the id of the
+player the table lists there, no id being listed twice (`Agree`).  The only hypotheses (`Legal`): each recorded random
+seat draw is one `RandomAssignSeats` could have made (`BatchLegal` — a fact about the recording, checked by the driver on
+every trace) and no membership call ended in a Go panic (`Res.panic`, which the harness reports as `CRASH.*`).  The
+seated-in *flag* is not part of `Agree`: D22 (stale auto-join) makes table and seat manager disagree on it transiently, so
+it is a monitor (`TBSpec.c03Inv`, evaluated once that callback has run), not a theorem.
 -/
 namespace SM
 
@@ -210,6 +218,38 @@ theorem C03_one_player_per_seat_partial (cfg : Meta) (b : Blind) (evs : List Eve
 -- non-vacuity: the example history (three arrivals, joins, a hand with an add-on, a departure) meets the premise
 example : ArrivalsOK (create exCfg exBlind) exHistory := by
   simp only [exHistory, ArrivalsOK, EventArrivalOK, step, and_true]
+  decide
+
+
+/-- **C03 — for every history**: in every state reachable from `CreateTable` by any legal history (see the header for
+`Legal`), the table's seat bookkeeping is consistent and the seat manager agrees with it seat by seat. -/
+theorem C03_for_every_history (cfg : Meta) (b : Blind) (evs : List Event) (hl : Legal (create cfg b) evs) :
+    Booked (run (create cfg b) evs) ∧ Agree (run (create cfg b) evs) :=
+  run_inv _ evs (create_inv cfg b) hl
+
+/-- … spelled out: no two listed players share a seat or an id, every listed player sits on a seat of the table whose
+seat-map entry names him, and the seat manager's occupant of every seat of the table is the table's -/
+theorem C03_occupants (cfg : Meta) (b : Blind) (evs : List Event) (hl : Legal (create cfg b) evs) :
+    let t := run (create cfg b) evs
+    t.players.Pairwise (fun p q => p.seat ≠ q.seat) ∧ (t.players.map (·.id)).Nodup ∧
+    (∀ (i : Nat) (p : Player), t.players[i]? = some p → 0 ≤ p.seat ∧ p.seat < t.cfg.maxSeat ∧ seatMapGet t.seatMap p.seat = some (i : Int) ∧
+      SM.idAt t.sm p.seat = some p.id) ∧
+    (∀ seat : Int, 0 ≤ seat → seat < t.cfg.maxSeat → SM.idAt t.sm seat = occId t.seatMap t.players seat) ∧
+    SM.IdsUnique t.sm := by
+  intro t
+  obtain ⟨hb, ha⟩ := C03_for_every_history cfg b evs hl
+  refine ⟨MapTight.seats_distinct _ _ hb.1, ha.ids, ?_, ha.seats, sm_unique t hb ha⟩
+  intro i p hp
+  have hg := hb.1.1.players i p hp
+  have hr := seatMapGet_range t.seatMap p.seat _ hg
+  rw [hb.2] at hr
+  refine ⟨hr.1, hr.2, hg, ?_⟩
+  rw [ha.seats p.seat hr.1 hr.2]
+  exact occ_of_player t.seatMap t.players hb.1.1 i p hp
+
+-- non-vacuity: the example history (three arrivals, joins, a hand with an add-on, a departure) is legal
+example : Legal (create exCfg exBlind) exHistory := by
+  simp only [exHistory, Legal, EventLegal, step, and_true]
   decide
 
 /-- D20: a batch update whose join half fails has already applied its departures -/
